@@ -64,6 +64,7 @@ type scenario struct {
 	now        int64
 	addr       bool
 	upd        bool // connect the time/extra-nonce updated block instead of the original one
+	pb         bool // solve the block and hand it to ProcessBlock (on a private copy of the chain)
 	src        string
 	minW, maxW uint32
 	prioSize   uint32
@@ -129,8 +130,8 @@ func (t txSpec) String() string {
 
 func (s *scenario) line() string {
 	var b strings.Builder
-	fmt.Fprintf(&b, "C12 tmpl w=%d ro=%d:%d now=%d addr=%s upd=%s src=%s pol=%d:%d:%d:%d h=%d mtp=%d seg=%s csv=%s cbw=%d cbs=%d hv=%d mat=%d",
-		s.world, s.roF, s.roK, s.now, b2s(s.addr), b2s(s.upd), s.src, s.minW, s.maxW, s.prioSize, s.minFree,
+	fmt.Fprintf(&b, "C12 tmpl w=%d ro=%d:%d now=%d addr=%s upd=%s pb=%s src=%s pol=%d:%d:%d:%d h=%d mtp=%d seg=%s csv=%s cbw=%d cbs=%d hv=%d mat=%d",
+		s.world, s.roF, s.roK, s.now, b2s(s.addr), b2s(s.upd), b2s(s.pb), s.src, s.minW, s.maxW, s.prioSize, s.minFree,
 		s.nextH, s.mtp, b2s(s.seg), b2s(s.csv), s.cbw, s.cbs, s.halving, s.maturity)
 	for _, t := range s.txs {
 		b.WriteString(" tx=")
@@ -256,6 +257,8 @@ func parseScenario(f []string) *scenario {
 			s.addr = v == "1"
 		case "upd":
 			s.upd = v == "1"
+		case "pb":
+			s.pb = v == "1"
 		case "src":
 			s.src = v
 		case "pol":
@@ -541,7 +544,7 @@ func (s *scenario) analyze(w *world, bp *builtPool) []txSpec {
 		}
 		o.sc, o.so = 0, false
 		if !missing {
-			c, err := blockchain.GetSigOpCost(tx, false, full, true, true)
+			c, err := blockchain.GetSigOpCost(tx, false, full, true, s.seg)
 			if err != nil {
 				panic(fmt.Sprintf("oracle sigop cost: %v", err))
 			}
